@@ -9,6 +9,8 @@ REL = "FendModel/Props/C13.lean"
 SETUPS = ["", "a = 5", "a = 5 ;; f = x: x + a", "a = 3 kg ;; b = 2", "x = 10 ;; 1 + 1", "f = x: y: x y ;; a = f 2", "a = \"s\" ;; 1/0"]
 INPUTS = ["1 + 1", "a = 7", "a = 7; a + 1", "b = a + roll d6", "roll d6", "sample d20", "1 USD to EUR", "5 EUR + 3 USD", "x = 1 USD to EUR; x", "a", "f 3", "()", "\"line\\nbreak\"",
           "2^2^2^2^2", "10^100", "1/3 to 60 dp", "a = ", "(((", "1 +", "_ = 9", "ans = 1; ans", "f = 5; f", "1,5 + 1", "1.5 + 1", "5 C to F", "1 florp + 1 kg", "\"" + "x" * 60 + "\"",
+          "\"abc\\n\"", "\"\\nabc\"", "\"abc\" + \"\\n\"", "\"\\r\\nabc\"", "\"abc\\t\"", "\"\\tabc\"", "\"" + " " * 30 + "x" * 31 + "\"", "\"" + "x" * 31 + " " * 30 + "\"", "\"" + " " * 55 + "\"", "\"a\" + \"\\n\" + \"\"",
+          "\" \\n \"", "\"\\u{0}abc\"", "\"abc\\u{7}\"", "\"x\" + \"" + " " * 52 + "\"",
           "x: x", "@debug 1", "@noapprox pi", "2 kilozib", "é + 1", "a = 1; b = 2; a + b", "sqrt 2", "100!", "1e3", "a == a", "not true", "3 to words", "earth", "@2024-02-29"]
 
 def gen(r, n):
